@@ -16,6 +16,7 @@ def leaves_value(a):
     return False
 
 
+SPLICE_LIMIT = 255
 TOKTEXT = {"Q": '"', "PL": "%(", "PR": "%)", "L": "(", "R": ")", "X": "1"}
 
 
@@ -27,13 +28,21 @@ def lexer_language(vd, drv, wd, tier):
     if tier == "thorough":
         runs = [(7, ["Q", "PL", "PR", "L", "R", "X"]), (10, ["Q", "PL", "PR", "R"]), (8, ["Q", "PL", "PR", "L", "R"])]
     # non-vacuity: without the reset of in_string at "%(" the theorem fails
-    m = tlc.run_tlc("MCLexer", constants={"MaxLen": 9, "NoReset": True, "Tok": ["Q", "PL", "PR", "R"]}, workers=1, timeout=900, heap="8g")
+    m = tlc.run_tlc("MCLexer", constants={"MaxLen": 9, "NoReset": True, "SpliceLimit": SPLICE_LIMIT, "Tok": ["Q", "PL", "PR", "R"]}, workers=1, timeout=900, heap="8g")
     if "Assumption" not in m.out and "assumption" not in m.out:
         raise common.ToolError("Lexer.tla: the NoReset mutant is not caught\n" + m.out[-1500:])
+    # the nesting limit, where the bound of the model reaches it: both layers agree for limits 1 and 2
+    for lim in (1, 2):
+        m = tlc.run_tlc("MCLexer", constants={"MaxLen": 9, "NoReset": False, "SpliceLimit": lim, "Tok": ["Q", "PL", "PR", "X"]}, workers=1, timeout=900, heap="8g")
+        if not m.ok:
+            if "ssumption" in m.out:
+                vd.observe("model:lexer: mechanism and language differ at splice limit %d" % lim, {"output": m.out[-3000:]})
+            else:
+                raise common.ToolError("MCLexer failed\n" + m.out[-2000:])
     vecs = []
     for n, tok in runs:
         out = os.path.join(wd, "lex-%d-%d.ndjson" % (n, len(tok)))
-        r = tlc.run_tlc("LexerGen", constants={"MaxLen": n, "NoReset": False, "Tok": tok, "OutFile": out, "Shard": 0, "NShards": 1},
+        r = tlc.run_tlc("LexerGen", constants={"MaxLen": n, "NoReset": False, "SpliceLimit": SPLICE_LIMIT, "Tok": tok, "OutFile": out, "Shard": 0, "NShards": 1},
                         workers=1, timeout=1500, heap="12g")
         if not r.ok or not os.path.exists(out):
             if "ssumption" in r.out:
@@ -67,7 +76,24 @@ def lexer_language(vd, drv, wd, tier):
                 vd.cov["traces_validated_against_impl"] += 1
             else:
                 vd.drift.append("parse tree of `%s' differs from tla/LexerGen.tla: %s vs %s" % (txt, r.get("tree"), want))
-    return len(meta)
+    # the limit itself (SpliceLimit of the model = max_subquery_depth - 1 of parser.yy): splices, and the
+    # directives that stand for one (%s is a splice of the empty program), nested up to the limit compile,
+    # one level more is rejected -- and far beyond it too, with a message, not with a crash
+    dcmds, dmeta = [], []
+    for n in (1, 8, SPLICE_LIMIT - 1, SPLICE_LIMIT, SPLICE_LIMIT + 1, SPLICE_LIMIT + 2, 1000, 3000, 30000):
+        for inner, extra in (("1", 0), ('"%s"', 1), ('"%( 1 %) %x"', 1), ('"a"', 0)):
+            txt = '"%( ' * n + inner + ' %)"' * n
+            dcmds.append("\t".join(["parse", str(len(dcmds)), "t=60", zw.hexq(txt)])); dmeta.append((n, inner, n + extra <= SPLICE_LIMIT))
+    dby = {r.get("id"): r for r in zw.run_driver(drv, dcmds, wd, tag="lexdepth")}
+    for i, (n, inner, want) in enumerate(dmeta):
+        vd.cov["evaluations"] += 1
+        r = dby.get(str(i)) or {}
+        if r.get("status") not in ("accepted", "rejected") or "contract" in r:
+            vd.observe("lexer: %d nested splices around `%s' neither compiled nor rejected" % (n, inner), {"observed": r}); continue
+        if (r.get("status") == "accepted") != want:
+            vd.observe("lexer: %d nested splices around `%s' are %s (the limit of the model is %d)"
+                       % (n, inner, r.get("status"), SPLICE_LIMIT), {"observed": r})
+    return len(meta) + len(dmeta)
 
 
 def run(tier):
